@@ -204,6 +204,15 @@ def has_float(t):
     return 'vd' in t
 
 
+NONFINITE = ('7ff0000000000000', 'fff0000000000000', '7ff8000000000000')     # inf, -inf, NaN: printed inf, -inf, NaN on both sides
+
+
+def has_finite_float(t):
+    """some float literal of the structure is printed with digits (ryu's on one side, a placeholder on the other)"""
+    import re
+    return any(h not in NONFINITE for h in re.findall(r'vd([0-9a-f]{16})', t)) or t.count('vd') != len(re.findall(r'vd[0-9a-f]{16}', t))
+
+
 def generate(ctx):
     r = ctx.rng
     ctx.ws_kinds = True
@@ -297,6 +306,25 @@ def generate(ctx):
         ctx.add('reparse_json_path %s' % gen.hexarg(t), kind='excluded-class', meta=('reparse',))
     for want in ['R;I(l-2147483648)', 'R;I(l2147483647)', 'R;I(Sx-2147483648~l-2147483648)', 'R;I(l-2147483647,x2147483647)']:
         ctx.add('print_parse_json_path %s' % want, meta=('pp', want))
+    # the literal `-inf` (crate fix e1187a7: `-` followed by `inf` in any letter case is negative infinity, which is what a literal
+    # overflowing downwards prints as; finding negative-infinity-literal-not-reparsed).  Pinned: the accepted spellings, the
+    # literal on either side, inside filters and as a stand-alone predicate, next to `inf`, what is NOT the literal (-infinity,
+    # -infx, -inf5, `- inf`, -nan, +inf), and the stand-alone signed forms (the unary sign applied to inf)
+    for t in [b'$.a > -inf', b'$.a > -INF', b'$.a > -Inf', b'$.a > -iNf ', b'$.a > -1e999', b'$.a > -9223372036854775e808', b'$?(@.x == -inf)',
+              b'$?(@.x == -inf)', b'$?( -inf < @.x )', b'$?(@.x == -inf && @.y != -INF || exists(@.z?(@ >= -inf)))', b'-inf == $.a', b'-inf==$.a',
+              b'$.a == -inf && $.b == inf', b'$.a == -inf || $.b == -inf', b'$.a==-inf', b'$.a - -inf', b'$.a --inf', b'-inf - -inf', b'-inf * inf',
+              b'-inf', b' -inf ', b'-INF', b'-Inf', b'- inf', b'--inf', b'-+inf', b'+-inf', b'+inf', b'inf', b'-inf.a', b'-inf .a',
+              b'-infinity', b'-inf5', b'-infx', b'-in', b'-i', b'-inf == -inf', b'-inf == - inf', b'-inf == -infinity',
+              b'$.a > -infinity', b'$.a > -INFINITY', b'$.a > -inf5', b'$.a > -infx', b'$.a > - inf', b'$.a > -\tinf', b'$.a > -nan', b'$.a > -NaN',
+              b'$.a > +inf', b'$.a > +nan', b'$.a > --inf', b'$.a > -in', b'$.a > -i', b'$.a > -', b'$.a > -inf.b', b'$.a > -inf && ', b'$.a > (-inf)',
+              b'$?(@.x == -infinity)', b'$?(@.x == - inf)', b'$?(-inf)', b'$?(exists(-inf))', b'$[-inf]', b'$[last-inf]', b'$.-inf', b'$."-inf"',
+              b'$.a > inf', b'$.a > INF', b'$.a > infinity', b'$.a > 1e999', b'$.a > nan', b'$.a > NaN', b'$.a == "-inf"']:
+        ctx.add('parse_json_path %s' % gen.hexarg(t), kind='neg-inf')
+        ctx.add('reparse_json_path %s' % gen.hexarg(t), kind='neg-inf', meta=('reparse',))
+    for want in ['Pbgt(p(R;D61)|vdfff0000000000000)', 'R;Fbeq(p(C;D78)|vdfff0000000000000)', 'Pbeq(vdfff0000000000000|p(R;D61))',
+                 'Pband(beq(p(R;D61)|vdfff0000000000000)|beq(p(R;D62)|vd7ff0000000000000))', 'PAb-(p(R;D61)|vdfff0000000000000)',
+                 'R;D61;Fbor(ble(vdfff0000000000000|p(C))|bne(p(C;D62)|vd7ff8000000000000))']:
+        ctx.add('print_parse_json_path %s' % want, meta=('pp', want))
     # raw input: prefixes, single-byte mutations, soups
     alphabet = b'$@.:*[]()?!=<>&|+-,"\\ \t\nlasttoexistsnulltruefalse0123456789eE.u{}a'
     for t in r.sample(texts, min(len(texts), ctx.scale(250, 5000))):
@@ -356,12 +384,13 @@ def normalise_outcome(case, o):
         # ok <structure> <structure after print + parse>: nothing printed is in the outcome.  With a float literal the model's
         # second parse read the placeholder text, not ryu's digits: only then is the second field left to the judge (which
         # requires parsed = reparsed of the implementation alone wherever only the floats keep the path out of the theorem's class)
-        if len(f) >= 3 and f[0] == 'ok' and 'vd' in f[1]:
+        # (the non-finite literals are printed inf / -inf / NaN by both sides: with only those, everything is compared)
+        if len(f) >= 3 and f[0] == 'ok' and has_finite_float(f[1]):
             return ' '.join(f[:2])
         return o
-    if len(f) >= 3 and f[0] in ('ok', 'err') and 'vd' in f[1]:
+    if len(f) >= 3 and f[0] in ('ok', 'err') and has_finite_float(f[1]):
         return ' '.join(f[:2])
-    if f[0] == 'err' and len(f) >= 3 and case.line.startswith('print_parse') and 'vd' in case.line:
+    if f[0] == 'err' and len(f) >= 3 and case.line.startswith('print_parse') and has_finite_float(case.line):
         return 'err'
     return o
 
@@ -422,10 +451,9 @@ def judge(ctx):
                 # only its float literals keep the path out of the theorem's class (the model prints a placeholder for them):
                 # judged on the implementation alone -- ryu's digits must parse back to the same double, the rest as proved
                 ctx.count('reparse', 'theorem-applies-but-for-floats: judged on the implementation')
-                cls = 'negative-infinity-literal-not-reparsed'
-                if len(f) == 3 and f[0] == 'ok' and f[2] == 'err' and 'vdfff0000000000000' in f[1] and cls in ctx.open_classes:
-                    ctx.known_hits[cls] = ctx.known_hits.get(cls, 0) + 1        # `-inf` is printed but not read (open known finding)
-                elif len(f) != 3 or f[0] != 'ok' or f[1] != f[2]:
+                # (`-inf`, printed for a literal overflowing downwards, was not read back: finding negative-infinity-literal-not-reparsed,
+                # fixed in the crate by e1187a7; paths whose only floats are inf / -inf / NaN are now leaf=1 above)
+                if len(f) != 3 or f[0] != 'ok' or f[1] != f[2]:
                     ctx.violate('an accepted path with float literals (otherwise in the class of the round-trip theorem) does not print and parse back to itself',
                                 case=c.line, text=repr(gen.unhexarg(c.line.split(' ')[1]))[:200], observed=o[:300], model=mo[:300])
             elif mo.startswith('ok '):
